@@ -395,6 +395,8 @@ pub fn literal() -> Vec<Config> {
     v.push(cfg("gcpcsaft_acetone_hexane", M::GcPcSaft(gc_pcsaft(&["acetone", "hexane"])), 2, 500.0, true));
     // SAFT-VR Mie at the boundary value m = 1 exactly (shipped record; the chain / monomer paths are chosen by comparing m with 1)
     v.push(cfg("saftvrmie_methane_m1", M::SaftVRMie(saftvrmie(&["methane"])), 1, 190.0, true));
+    // SAFT-VR Mie: a spherical (m = 1) next to a chain component (which contributions exist is decided from the whole parameter set)
+    v.push(cfg("saftvrmie_methane_butane", M::SaftVRMie(saftvrmie(&["methane", "n-butane"])), 2, 300.0, false));
     // SAFT-VRQ Mie with mixed Feynman-Hibbs orders (thorough tier: ~10k instructions)
     v.push(cfg("saftvrqmie_literal_h2fh1_nefh0", M::SaftVRQMie(saftvrqmie_mixed_fh()), 2, 40.0, false));
     v
